@@ -68,9 +68,7 @@ def run_sim(case):
     spec = case.get("sched") or {"kind": "dev"}
     calls = case["calls"]
     total = sum(c["n"] for c in calls)
-    gran_op = spec.get("gran", "line") == "op"
-    sched = Sched(schedules.make_chooser(spec), SUT_FILES, max_steps=(20000 + 3000 * total + 2000 * len(calls) * case["workers"]) * (3 if gran_op else 1),
-                  opcodes=gran_op)
+    sched = Sched(schedules.make_chooser(spec), SUT_FILES, max_steps=20000 + 3000 * total + 2000 * len(calls) * case["workers"])
     r = Run()
     r.sched = sched
     r.outputs = []
